@@ -50,11 +50,85 @@ def isqrt_fraction(q, digits=40):
     return Fraction(math.isqrt(n), scale)
 
 
+# ------------------------------------------------------------------ module trees around the layer under test
+# shape -> (path of the layer, paths of all nodes in the order used for event generation, Coq tree)
+TREES = {
+    "flat":       dict(lp=[],     nodes=[[]],                              coq="Node true []"),
+    "seq":        dict(lp=[0],    nodes=[[], [0]],                         coq="Node true [Node true []]"),
+    "holder":     dict(lp=[0],    nodes=[[], [0], [1]],                    coq="Node true [Node true []; Node true []]"),
+    "holder_rev": dict(lp=[1],    nodes=[[], [0], [1]],                    coq="Node true [Node true []; Node true []]"),
+    "seq_holder": dict(lp=[0, 0], nodes=[[], [0], [0, 0], [0, 1]],         coq="Node true [Node true [Node true []; Node true []]]"),
+    "holder_seq": dict(lp=[0, 0], nodes=[[], [0], [0, 0], [1], [1, 0]],    coq="Node true [Node true [Node true []]; Node true [Node true []]]"),
+}
+TREE_NAMES = list(TREES)
+
+
+def build_tree(nnmod, shape, layer):
+    """Real module tree (works for synapgrad.nn and torch.nn): returns (root, {path tuple: module}).
+    Holder is a custom Module keeping the layer (and an unused sibling Dropout) as attributes; forwards go through `inner`."""
+    class Holder(nnmod.Module):
+        def __init__(self, inner, side, inner_first=True):
+            super().__init__()
+            if inner_first:
+                self.inner = inner; self.side = side
+            else:
+                self.side = side; self.inner = inner
+
+        def forward(self, x):
+            return self.inner(x)
+    if shape == "flat":
+        return layer, {(): layer}
+    if shape == "seq":
+        root = nnmod.Sequential(layer)
+        return root, {(): root, (0,): layer}
+    if shape == "holder":
+        side = nnmod.Dropout(0.5)
+        root = Holder(layer, side)
+        return root, {(): root, (0,): layer, (1,): side}
+    if shape == "holder_rev":
+        side = nnmod.Dropout(0.5)
+        root = Holder(layer, side, inner_first=False)
+        return root, {(): root, (0,): side, (1,): layer}
+    if shape == "seq_holder":
+        side = nnmod.Dropout(0.5)
+        mid = Holder(layer, side)
+        root = nnmod.Sequential(mid)
+        return root, {(): root, (0,): mid, (0, 0): layer, (0, 1): side}
+    if shape == "holder_seq":
+        side = nnmod.Dropout(0.5)
+        mid, smid = nnmod.Sequential(layer), nnmod.Sequential(side)
+        root = Holder(mid, smid)
+        return root, {(): root, (0,): mid, (0, 0): layer, (1,): smid, (1, 0): side}
+    raise KeyError(shape)
+
+
+def is_prefix(p, q):
+    return list(q[:len(p)]) == list(p)
+
+
+def random_switches(rng, shape, n):
+    """n train()/eval() calls on random nodes; now and then the pattern root.eval(); child.train(); root.eval()"""
+    nodes = TREES[shape]["nodes"]
+    out = []
+    while len(out) < n:
+        if rng.random() < 0.25 and len(nodes) > 1:
+            b = rng.random() < 0.5
+            out += [([], b), (rng.choice(nodes[1:]), not b), ([], b)]
+        else:
+            out.append((rng.choice(nodes), rng.random() < 0.5))
+    return out[:max(n, 0)] if n < 3 else out
+
+
+def path_coq(p):
+    return "[" + "; ".join("%d%%nat" % i for i in p) + "]"
+
+
 # ------------------------------------------------------------------ BatchNorm cases
 class BNCase:
     def __init__(self, rng, momentum, affine, track, rank, eps, max_events=8, exact=None):
         self.momentum, self.affine, self.track, self.rank, self.eps = momentum, affine, track, rank, eps
         self.C = rng.randint(1, 3)
+        self.tree = rng.choice(TREE_NAMES)
         want_exact = rng.random() < 0.6 if exact is None else exact
         self.spatial = {2: (), 3: (rng.choice([1, 2, 4] if want_exact else [1, 2, 3]),),
                         4: (rng.choice([1, 2]), rng.choice([1, 2] if want_exact else [1, 3]))}[rank]
@@ -64,10 +138,9 @@ class BNCase:
         nev = rng.randint(2, max_events)
         for _ in range(nev):
             c = rng.random()
-            if c < 0.2:
-                self.events.append(("Train",))
-            elif c < 0.4:
-                self.events.append(("Eval",))
+            if c < 0.4:
+                for pth, b in random_switches(rng, self.tree, 1 if rng.random() < 0.8 else 3):
+                    self.events.append(("Set", list(pth), b))
             else:
                 if want_exact:
                     N = rng.choice([2, 2, 4, 8]) if rng.random() < 0.93 else 1
@@ -89,10 +162,11 @@ class BNCase:
         c.gamma = [Fraction(g) for g in d["weight"]] if c.affine else None
         c.beta = [Fraction(b) for b in d["bias"]] if c.affine else None
         c.events = []
+        c.tree = d["tree"]
         c.rank, c.spatial = (4 if d["layer"] == "BatchNorm2d" else 2), ()
         for e in d["events"]:
-            if isinstance(e, str):
-                c.events.append((e,))
+            if "set" in e:
+                c.events.append(("Set", list(e["set"]["node"]), e["set"]["training"]))
             else:
                 shape = tuple(e["forward"]["shape"])
                 c.rank, c.spatial = len(shape), shape[2:]
@@ -126,7 +200,9 @@ class BNCase:
                 "momentum": self.momentum, "affine": self.affine, "track_running_stats": self.track,
                 "eps": str(self.eps), "weight": [str(g) for g in self.gamma] if self.affine else None,
                 "bias": [str(b) for b in self.beta] if self.affine else None,
-                "events": [e[0] if e[0] != "Forward" else {"forward": {"shape": list(e[1]), "values": [str(v) for v in e[2]]}} for e in self.events]}
+                "tree": self.tree, "layer_path": TREES[self.tree]["lp"],
+                "events": [{"set": {"node": e[1], "training": e[2]}} if e[0] == "Set" else
+                           {"forward": {"shape": list(e[1]), "values": [str(v) for v in e[2]]}} for e in self.events]}
 
 
 def momentum_q(m):
@@ -144,6 +220,7 @@ def run_bn_impl(case):
     if case.affine:
         layer.weight.data = np.array([float(g) for g in case.gamma], dtype=np.float64)
         layer.bias.data = np.array([float(b) for b in case.beta], dtype=np.float64)
+    root, nodes = build_tree(nn, case.tree, layer)
     captured = []
     orig = impl.cpu_ops.batch_norm_forward
 
@@ -156,15 +233,14 @@ def run_bn_impl(case):
     try:
         for ev in case.events:
             o = {"out": None}
-            if ev[0] == "Train":
-                layer.train()
-            elif ev[0] == "Eval":
-                layer.eval()
+            if ev[0] == "Set":
+                node = nodes[tuple(ev[1])]
+                node.train() if ev[2] else node.eval()
             else:
                 x = sg.Tensor(np.array([float(v) for v in ev[2]], dtype=np.float64).reshape(ev[1]))
                 del captured[:]
                 try:
-                    y = layer(x)
+                    y = root(x)                      # forwards go through the root of the tree
                     yd = np.asarray(y.data, dtype=np.float64)
                     ycols = [frl(np.moveaxis(yd, 1, 0)[c]) for c in range(case.C)]
                     o["out"] = {"mean": frl(captured[-1][0]), "var": frl(captured[-1][1]), "y": ycols,
@@ -201,7 +277,7 @@ def bn_tolerances(case):
 # ---- Coq text
 BN_HEADER = """From Coq Require Import List Bool Arith ZArith QArith Qabs.
 Import ListNotations.
-From SG Require Import Base.Cmp State.BNDropout.
+From SG Require Import Base.Cmp State.BNDropout State.ModeTree.
 Open Scope Q_scope.
 Fixpoint list_rel {A B} (r : A -> B -> bool) (l1 : list A) (l2 : list B) : bool :=
   match l1, l2 with
@@ -216,7 +292,7 @@ Definition root_ok (s d : Q) : bool := negb (Qle_bool s 0) && Qle_bool (Qabs (s 
 Record iout := { o_mean : list Q; o_var : list Q; o_y : list (list Q); o_roots : list Q }.
 Record iobs := { i_rm : option (list Q); i_rv : option (list Q); i_nbt : nat; i_tr : bool;
                  i_out : option (option iout) }.
-Record bcase := { b_o : opts; b_C : nat; b_h : list ev; b_gamma : option (list Q); b_beta : option (list Q);
+Record bcase := { b_o : opts; b_C : nat; b_tree : tree; b_lp : path; b_h : list tev; b_gamma : option (list Q); b_beta : option (list Q);
                   b_tm : Q; b_tv : Q; b_obs : list iobs }.
 Definition event_ok (c : bcase) (m : bn * obs) (i : iobs) : bool :=
   oclose (b_tm c) (rmean (fst m)) (i_rm i) && oclose (b_tv c) (rvar (fst m)) (i_rv i) &&
@@ -231,7 +307,7 @@ Definition event_ok (c : bcase) (m : bn * obs) (i : iobs) : bool :=
   | _, _ => false
   end.
 Definition case_ok (c : bcase) (_ : unit) : bool :=
-  list_rel (event_ok c) (trace (b_o c) (fresh (b_o c) (b_C c)) (b_h c)) (b_obs c).
+  list_rel (event_ok c) (ttrace (b_o c) (b_lp c) (b_tree c, sync (b_lp c) (b_tree c) (fresh (b_o c) (b_C c))) (b_h c)) (b_obs c).
 """
 
 
@@ -248,9 +324,9 @@ def bn_case_coq(case, obs):
     evs = []
     for e in case.events:
         if e[0] == "Forward":
-            evs.append("Forward %s" % clist([ql(col) for col in case.per_feature(e)]))
+            evs.append("TForward %s" % clist([ql(col) for col in case.per_feature(e)]))
         else:
-            evs.append(e[0])
+            evs.append("Switch %s %s" % (path_coq(e[1]), cb(e[2])))
     iobs = []
     for o in obs:
         if o["out"] is None:
@@ -266,8 +342,9 @@ def bn_case_coq(case, obs):
     mq = momentum_q(case.momentum)
     opts = "{| momentum := %s; affine := %s; track := %s; eps := %s |}" % (
         "None" if mq is None else "Some %s" % cq(mq), cb(case.affine), cb(case.track), cq(Fraction(case.eps)))
-    return "({| b_o := %s; b_C := %d; b_h := %s;\n   b_gamma := %s; b_beta := %s; b_tm := %s; b_tv := %s;\n   b_obs := %s |}, tt)" % (
-        opts, case.C, clist(evs), oql(case.gamma), oql(case.beta), cq(tm), cq(tv), clist(iobs))
+    return "({| b_o := %s; b_C := %d; b_tree := %s; b_lp := %s; b_h := %s;\n   b_gamma := %s; b_beta := %s; b_tm := %s; b_tv := %s;\n   b_obs := %s |}, tt)" % (
+        opts, case.C, TREES[case.tree]["coq"], path_coq(TREES[case.tree]["lp"]), clist(evs), oql(case.gamma), oql(case.beta),
+        cq(tm), cq(tv), clist(iobs))
 
 
 def parse_natlist(out):
@@ -310,6 +387,8 @@ def judge_bn(case, obs):
         with torch.no_grad():
             tl.weight.copy_(torch.tensor([float(g) for g in case.gamma], dtype=torch.float64))
             tl.bias.copy_(torch.tensor([float(b) for b in case.beta], dtype=torch.float64))
+    troot, tnodes = build_tree(torch.nn, case.tree, tl)      # the same tree in torch, driven by the same events
+    lp = TREES[case.tree]["lp"]
     # Fraction spec state (documented semantics)
     rm = [Fraction(0)] * case.C if case.track else None
     rv = [Fraction(1)] * case.C if case.track else None
@@ -321,11 +400,12 @@ def judge_bn(case, obs):
     def close(a, b, tol=rel):
         return abs(a - b) <= tol * (1 + abs(b))
     for idx, (ev, o) in enumerate(zip(case.events, obs)):
-        where = "event %d (%s)" % (idx, ev[0])
-        if ev[0] == "Train":
-            tl.train(); training = True
-        elif ev[0] == "Eval":
-            tl.eval(); training = False
+        where = "event %d (%s)" % (idx, ev[0] if ev[0] != "Set" else "%s() on node %s" % ("train" if ev[2] else "eval", ev[1]))
+        if ev[0] == "Set":
+            tn = tnodes[tuple(ev[1])]
+            tn.train() if ev[2] else tn.eval()
+            if is_prefix(ev[1], lp):          # a call on the layer or on one of its ancestors decides the layer's mode
+                training = ev[2]
         else:
             cols = case.per_feature(ev)
             n = case.nsamp(ev)
@@ -338,7 +418,7 @@ def judge_bn(case, obs):
                     return where + ": training forward with one sample per feature did not raise"
                 k += 1
                 try:
-                    tl(torch.tensor([float(v) for v in ev[2]], dtype=torch.float64).reshape(ev[1]))
+                    troot(torch.tensor([float(v) for v in ev[2]], dtype=torch.float64).reshape(ev[1]))
                 except ValueError:
                     pass
                 continue
@@ -368,7 +448,7 @@ def judge_bn(case, obs):
                         return where + ": output %s for input %s, expected %s" % (float(yi), float(xi), float((xi - mu[c]) / s * g + b))
             # torch
             if not (use_batch and n == 1):      # torch refuses batch statistics over one sample
-                ty = tl(torch.tensor([float(v) for v in ev[2]], dtype=torch.float64).reshape(ev[1])).detach().numpy()
+                ty = troot(torch.tensor([float(v) for v in ev[2]], dtype=torch.float64).reshape(ev[1])).detach().numpy()
                 if not np.allclose(ty, o["out"]["raw"], rtol=1e-6, atol=1e-6):
                     return where + ": output differs from torch by %g" % float(np.abs(ty - o["out"]["raw"]).max())
             # eval purity / determinism
@@ -378,7 +458,9 @@ def judge_bn(case, obs):
             prev = (ev[2], ev[1], (rm, rv), o["out"]["raw"]) if not training else None
         # state after the event
         if o["training"] != training:
-            return where + ": layer.training is %s" % o["training"]
+            return where + ": layer.training is %s, but the last train()/eval() call on the layer or an ancestor asked for %s" % (o["training"], training)
+        if o["training"] != bool(tl.training):
+            return where + ": layer.training is %s, torch's layer in the same tree has %s" % (o["training"], tl.training)
         if o["nbt"] != k:
             return where + ": num_batches_tracked = %d, expected %d" % (o["nbt"], k)
         if (o["rm"] is None) != (rm is None) or (o["rv"] is None) != (rv is None):
@@ -409,19 +491,35 @@ class DOCase:
         self.x = [Fraction(rng.choice(nz), 4) for _ in range(size)]          # non-zero so that the mask is visible
         self.g = [Fraction(rng.choice(nz), 8) for _ in range(size)]          # non-uniform upstream gradient
         self.seed = rng.randrange(1 << 30)
-        self.training = rng.random() < 0.8
+        self.tree = rng.choice(TREE_NAMES)
+        self.switches = [(list(pth), b) for pth, b in random_switches(rng, self.tree, rng.choice([0, 1, 2, 3, 4]))]
+        if rng.random() < 0.5:                       # bias towards training mode at the forward (the interesting branch)
+            self.switches.append(([], True) if rng.random() < 0.5 else (list(TREES[self.tree]["lp"]), True))
+        self.training = self.expected_mode()
+
+    def expected_mode(self):
+        """mode of the layer at the forward: the last train()/eval() call on the layer or an ancestor (initially training)"""
+        m = True
+        for pth, b in self.switches:
+            if is_prefix(pth, TREES[self.tree]["lp"]):
+                m = b
+        return m
 
     @classmethod
     def from_descr(cls, d):
         c = cls.__new__(cls)
-        c.p, c.dtype, c.shape, c.seed, c.training = d["p"], d["dtype"], tuple(d["shape"]), d["numpy_seed"], d["training"]
+        c.p, c.dtype, c.shape, c.seed = d["p"], d["dtype"], tuple(d["shape"]), d["numpy_seed"]
+        c.tree, c.switches = d["tree"], [(list(pth), b) for pth, b in d["switches"]]
+        c.training = c.expected_mode()
         c.x = [Fraction(v) for v in d["x"]]
         c.g = [Fraction(v) for v in d["g"]]
         return c
 
     def descr(self):
         return {"p": self.p, "dtype": self.dtype, "shape": list(self.shape), "x": [str(v) for v in self.x],
-                "g": [str(v) for v in self.g], "numpy_seed": self.seed, "training": self.training}
+                "g": [str(v) for v in self.g], "numpy_seed": self.seed, "tree": self.tree,
+                "layer_path": TREES[self.tree]["lp"], "switches": [[pth, b] for pth, b in self.switches],
+                "expected_mode_at_forward": "train" if self.training else "eval"}
 
 
 def run_do_impl(case):
@@ -430,15 +528,16 @@ def run_do_impl(case):
     impl.reset_modes()
     dt = getattr(np, case.dtype)
     layer = nn.Dropout(p=case.p)
-    if not case.training:
-        layer.eval()
+    root, nodes = build_tree(nn, case.tree, layer)
+    for pth, b in case.switches:
+        nodes[tuple(pth)].train() if b else nodes[tuple(pth)].eval()
     np.random.seed(case.seed)
     r = np.random.rand(*case.shape)
     np.random.seed(case.seed)
     x = sg.Tensor(np.array([float(v) for v in case.x], dtype=dt).reshape(case.shape), requires_grad=True)
-    y = layer(x)
-    res = {"r": frl(r), "same_object": y is x, "out": frl(np.asarray(y.data)), "dtype": str(y.data.dtype), "raw": np.asarray(y.data).copy()}
-    if case.training:
+    y = root(x)                                   # forward through the root of the tree
+    res = {"layer_training": bool(layer.training), "r": frl(r), "same_object": y is x, "out": frl(np.asarray(y.data)), "dtype": str(y.data.dtype), "raw": np.asarray(y.data).copy()}
+    if y is not x:
         y.backward(sg.Tensor(np.array([float(v) for v in case.g], dtype=dt).reshape(case.shape)))
         res["grad"] = frl(np.asarray(x.grad.data))
         res["graw"] = np.asarray(x.grad.data).copy()
@@ -460,23 +559,30 @@ def do_tol(case):
 
 DO_HEADER = """From Coq Require Import List Bool Arith ZArith QArith Qabs.
 Import ListNotations.
-From SG Require Import Base.Cmp State.BNDropout.
+From SG Require Import Base.Cmp State.BNDropout State.ModeTree.
 Open Scope Q_scope.
 Definition rclose (tol a b : Q) : bool := Qle_bool (Qabs (a - b)) (tol * Qabs b).
-Record dcase := { d_p : Q; d_train : bool; d_r : list Q; d_x : list Q; d_g : list Q; d_tol : Q;
+Record dcase := { d_p : Q; d_tree : tree; d_lp : path; d_sw : switches; d_same : bool; d_r : list Q; d_x : list Q; d_g : list Q; d_tol : Q;
                   d_out : list Q; d_grad : option (list Q) }.
+(* d_same: the forward returned its input object (no graph node: eval mode); d_grad: x.grad after backward otherwise *)
 Definition case_ok (c : dcase) (_ : unit) : bool :=
-  list_eqb (rclose (d_tol c)) (dropout (d_p c) (d_train c) (d_r c) (d_x c)) (d_out c) &&
-  match d_grad c with
-  | Some gr => list_eqb (rclose (d_tol c)) (dropout_bwd (d_p c) (d_r c) (d_g c)) gr
-  | None => negb (d_train c)
+  match flag_at (apply_switches (d_tree c) (d_sw c)) (d_lp c) with
+  | None => false
+  | Some mode =>
+      option_eqb (list_eqb (rclose (d_tol c))) (tree_dropout (d_p c) (d_tree c) (d_lp c) (d_sw c) (d_r c) (d_x c)) (Some (d_out c)) &&
+      Bool.eqb (negb mode) (d_same c) &&
+      match d_grad c with
+      | Some gr => mode && list_eqb (rclose (d_tol c)) (dropout_bwd (d_p c) (d_r c) (d_g c)) gr
+      | None => negb mode
+      end
   end.
 """
 
 
 def do_case_coq(case, res):
-    return "({| d_p := %s; d_train := %s; d_r := %s; d_x := %s; d_g := %s; d_tol := %s; d_out := %s; d_grad := %s |}, tt)" % (
-        cq(Fraction(float(case.p))), cb(case.training), ql(res["r"]), ql(case.x), ql(case.g), cq(do_tol(case)),
+    sw = clist(["(%s, %s)" % (path_coq(pth), cb(b)) for pth, b in case.switches])
+    return "({| d_p := %s; d_tree := %s; d_lp := %s; d_sw := %s; d_same := %s; d_r := %s; d_x := %s; d_g := %s; d_tol := %s; d_out := %s; d_grad := %s |}, tt)" % (
+        cq(Fraction(float(case.p))), TREES[case.tree]["coq"], path_coq(TREES[case.tree]["lp"]), sw, cb(res["same_object"]), ql(res["r"]), ql(case.x), ql(case.g), cq(do_tol(case)),
         ql(res["out"]), oql(res["grad"]))
 
 
@@ -492,10 +598,15 @@ def judge_do(case, res):
         return "output dtype %s for %s input" % (res["dtype"], case.dtype)
     if not np.all(np.isfinite(out)):
         return "non-finite output %s" % out.tolist()
+    if res["layer_training"] != case.training:
+        return "layer.training is %s at the forward, but the last train()/eval() call on the layer or an ancestor asked for %s" % (
+            res["layer_training"], "train" if case.training else "eval")
     if not case.training:
         if not res["same_object"] and not np.array_equal(out, x):
             return "eval mode is not the identity"
         return None
+    if res["same_object"]:
+        return "training mode returned the input unchanged"
     m = out != 0                                     # x has no zero entry
     p = float(case.p)
     if p >= 1:
@@ -558,7 +669,7 @@ def gen_bn_cases(ctx):
     # momentum=None with many training forwards (cumulative average over k up to 8)
     for j in range(12 if ctx.quick else 60):
         c = BNCase(rng, None, rng.random() < 0.5, True, rng.choice([2, 3, 4]), EPS_DYADIC, exact=True)
-        c.events = [e for e in c.events if e[0] == "Forward"] * 2
+        c.events = [e for e in c.events if e[0] == "Forward"] * 2 or c.events
         c.events = c.events[:8]
         cases.append(c)
     return cases
@@ -622,12 +733,10 @@ def run(ctx):
     for i in bad:
         dm.append({"case": dcases[i].descr(), "tolerance": str(do_tol(dcases[i])), "out": [float(v) for v in dres[i]["out"]],
                    "grad": None if dres[i]["grad"] is None else [float(v) for v in dres[i]["grad"]], "drawn": [float(v) for v in dres[i]["r"]]})
-    for c, r in zip(dcases, dres):
-        if not c.training and not r["same_object"]:
-            dm.append({"case": c.descr(), "eval": "forward did not return its input object"})
     ctx.tie("dropout/forward+backward", "correspondence", len(dcases), sum(1 for c in dcases if c.training and 0 < c.p < 1), dm,
             note="the numbers np.random.rand draws are reproduced by re-seeding and given to the model; exact when 1/(1-p) is dyadic "
-                 "(p in {0, 1/2, 3/4}) or p >= 1, relative 2^-50 (float64) / 2^-22 (float32) otherwise; eval returns the input object")
+                 "(p in {0, 1/2, 3/4}) or p >= 1, relative 2^-50 (float64) / 2^-22 (float32) otherwise; the layer sits in a random module tree and is "
+                 "preceded by random train()/eval() calls on any node, the forward goes through the root; eval returns the input object")
 
     # ---- oracle (independent of Coq) ---------------------------------------------------------------
     verd = [(c, o, judge_bn(c, o)) for c, o in zip(cases, obs)]
